@@ -7,6 +7,8 @@ package main
 //                mode 1: Copy(srcRoot, name, dstRoot, "/")       (name = a top-level entry of srcView;
 //                        a directory lands at dstRoot/name, patterns are relative to it; a
 //                        non-directory is copied whatever the patterns say)
+//                mode 2: Copy(srcRoot, "*", dstRoot, "/") with AllowWildcards: every top-level entry
+//                        is a top-level source of its own, as in mode 1, in lexical order
 //              output = (#ffff)                                  newCopier rejected the patterns
 //                     | (#0 inc exc ptable errclass snapshot)    inc/exc as the real matchers hold them,
 //                        ptable = ((pattern path bool) ...) from the real Pattern.match (as in c10.go),
@@ -66,7 +68,7 @@ func c16SetRootMeta(dir string) error {
 }
 
 // the real copier, never hanging, never panicking
-func c16Copy(srcRoot, src, dstRoot, dst string, inc, exc []string, dirContents bool) int {
+func c16Copy(srcRoot, src, dstRoot, dst string, inc, exc []string, dirContents, wild bool) int {
 	ch := make(chan int, 1)
 	go func() {
 		defer func() {
@@ -74,7 +76,7 @@ func c16Copy(srcRoot, src, dstRoot, dst string, inc, exc []string, dirContents b
 				ch <- 0xfe
 			}
 		}()
-		ci := fscopy.CopyInfo{IncludePatterns: inc, ExcludePatterns: exc, CopyDirContents: dirContents}
+		ci := fscopy.CopyInfo{IncludePatterns: inc, ExcludePatterns: exc, CopyDirContents: dirContents, AllowWildcards: wild}
 		err := fscopy.Copy(context.Background(), srcRoot, src, dstRoot, dst, fscopy.WithCopyInfo(ci))
 		ch <- c16ErrClass(err)
 	}()
@@ -121,6 +123,15 @@ func c16RelPaths(srcView []*MNode, mode int, name string) []string {
 	if mode == 0 {
 		return viewPaths(srcView)
 	}
+	if mode == 2 {
+		var out []string
+		for _, n := range srcView {
+			if n.IsDir() {
+				out = append(out, viewPaths(n.Kids)...)
+			}
+		}
+		return out
+	}
 	if n := c16FindTop(srcView, name); n != nil && n.IsDir() {
 		return viewPaths(n.Kids)
 	}
@@ -156,11 +167,14 @@ func run1601(in Sx) (out Sx) {
 	old := syscall.Umask(022)
 	defer syscall.Umask(old)
 
-	src, dirContents := "/", true
-	if mode != 0 {
+	src, dirContents, wild := "/", true, false
+	switch mode {
+	case 1:
 		src, dirContents = name, false
+	case 2:
+		src, dirContents, wild = "*", false, true
 	}
-	cls := c16Copy(srcRoot, src, dstRoot, "/", inc, exc, dirContents)
+	cls := c16Copy(srcRoot, src, dstRoot, "/", inc, exc, dirContents, wild)
 	if cls == 0xffff {
 		return L(N(0xffff))
 	}
@@ -237,7 +251,7 @@ func run1602(in Sx) (out Sx) {
 	old := syscall.Umask(022)
 	defer syscall.Umask(old)
 
-	cls := c16Copy(srcRoot, "/", dstRoot, "/", inc, exc, true)
+	cls := c16Copy(srcRoot, "/", dstRoot, "/", inc, exc, true, false)
 	if cls == 0xffff {
 		return L(N(0xffff))
 	}
@@ -524,7 +538,7 @@ func genC16(g *Gen) {
 	defer quietStderr()()
 	r := g.Rng
 	classes := map[string]int{}
-	n := g.Vol(1200, 25000)
+	n := g.Vol(3000, 40000)
 	for i := 0; i < n; i++ {
 		names := c16Names
 		if i%3 == 0 {
@@ -533,13 +547,27 @@ func genC16(g *Gen) {
 		view := c16View(r, names, i%4 == 1)
 		paths := viewPaths(view)
 		mode, name := 0, ""
-		srcRel := view
-		if r.Chance(20) && len(view) > 0 {
+		srcRel := view // the tree the patterns are aimed at
+		switch x := r.Intn(100); {
+		case x < 18 && len(view) > 0:
 			top := Pick(r, view)
 			mode, name = 1, top.Name
 			srcRel = nil
 			if top.IsDir() {
 				srcRel = top.Kids
+			}
+			paths = viewPaths(srcRel)
+		case x < 28 && len(view) > 0:
+			mode = 2
+			var dirs []*MNode
+			for _, n := range view {
+				if n.IsDir() {
+					dirs = append(dirs, n)
+				}
+			}
+			srcRel = nil
+			if len(dirs) > 0 {
+				srcRel = Pick(r, dirs).Kids
 			}
 			paths = viewPaths(srcRel)
 		}
@@ -580,7 +608,18 @@ func genC16(g *Gen) {
 		}
 		in := L(ViewSx(view), ViewSx(dst), stringsSx(inc), stringsSx(exc), NI(mode), S(name))
 		out := run1601(in)
-		sh := c16Classify(srcRel, name, inc, exc, out, dstHad)
+		var sh c16Shape
+		if mode == 2 {
+			sh.ok = len(out.L) == 6 && out.L[4].Int() == 0
+			for _, top := range view {
+				if top.IsDir() {
+					t := c16Classify(top.Kids, top.Name, inc, exc, out, dstHad)
+					sh.lazy, sh.skipped = sh.lazy || t.lazy, sh.skipped || t.skipped
+				}
+			}
+		} else {
+			sh = c16Classify(srcRel, name, inc, exc, out, dstHad)
+		}
 		cls := fmt.Sprintf("%s/%s/mode%d", tag, dcls, mode)
 		if !sh.ok {
 			cls += "/err"
@@ -594,7 +633,7 @@ func genC16(g *Gen) {
 		g.EmitWith(0x1601, in, out, sh.ok && sh.lazy && sh.skipped, cls)
 	}
 
-	m := g.Vol(500, 10000)
+	m := g.Vol(1000, 15000)
 	for i := 0; i < m; i++ {
 		names := c16Names
 		if i%3 == 0 {
